@@ -354,6 +354,10 @@ def check_c13(pid, tier, t0, replay_key):
     obl += o
     samples += s
     st.update(s2)
+    f, o, s, s2 = e7.rule_g2(P, tables)
+    findings += f
+    obl += o
+    st.update(s2)
     # recursion census restricted to the FEA front end
     reach = e3.entry_reach(P)
     f, o, s, s2 = e4.rule_x4(P, reach, tables, None)
@@ -370,7 +374,12 @@ def check_c13(pid, tier, t0, replay_key):
         "Decides some clauses of C13 only. (G1) Termination of the recursive-descent parser's loops: a context-sensitive dataflow over MIR "
         "(token-kind sets evaluated from the TokenSet constants, path-sensitive on the results of eat/expect/matches, combinators analysed per "
         "closure binding) shows that every trip round every loop in a function that takes the Parser consumes at least one non-EOF lexeme (or the "
-        "loop is a std-iterator `for`); the lexeme stream is finite, so no loop spins. (X6) The statement's last clause: in ParseContext::generate_parse_tree, IncludeGraph::validate dominates the "
+        "loop is a std-iterator `for`); the lexeme stream is finite, so no loop spins. (G2) Panic-freedom of the parser modules (parser.rs, grammar/*): "
+        "the same dataflow, now keeping token facts (current token and three tokens of lookahead, exact TokenSet values, raw-text equalities) on every "
+        "path, shows that the failing edge of most assertions/unwraps is infeasible (`assert!(parser.eat(K))` after a dispatch on K, the "
+        "`debug_assert!(recovery.contains(..))` for every recovery set that reaches it, ...); constant-index bounds checks are evaluated; every "
+        "other assertion, unwrap, index or arithmetic-overflow site is listed per (function, kind, count) in an audited table with the reason it cannot "
+        "fire, so a new panic site in the parser is a violation. (X6) The statement's last clause: in ParseContext::generate_parse_tree, IncludeGraph::validate dominates the "
         "recursive tree assembly, its rejected edges are handed to generate_recurse which recurses only for statements not rejected, and validate "
         "bounds the include depth by MAX_INCLUDE_DEPTH and keeps a seen set - cyclic or too-deep includes are reported instead of looping. (L1) A "
         "necessary condition of losslessness: exactly one function (AstSink::token) advances the sink's source cursor, slicing by the same length it "
@@ -379,7 +388,7 @@ def check_c13(pid, tier, t0, replay_key):
         "to a diagnostic constructor in the parser is taken from token/node ranges, not computed by byte arithmetic in the reporting function "
         "(one audited site; the two `pos..pos+1` helpers that can point one byte past the end of input are listed known findings). Plus the "
         "recursion census restricted to the FEA parser/token tree (each cycle there is tree- or grammar-bounded). NOT "
-        "decided - do not read this check as evidence for them: loops of the lexer and of the contextual-rule rewriter (ReparseCtx), recursion depth, panic-freedom (indexing/slicing/unwrap/assert sites), "
+        "decided - do not read this check as evidence for them: loops of the lexer and of the contextual-rule rewriter (ReparseCtx), recursion depth, panic-freedom of the lexer / token tree / validation, correctness of the audited reasons themselves (they were read, not proved), "
         "diagnostic ranges on character boundaries, the contextual-rule rewrite re-emitting every child.")
     rule_text = "one obligation per guard clause, cursor writer, lexer caller, advance caller and FEA front-end recursive cycle"
     return common.finish(pid, tier, t0, findings, obl, samples, explanation, rule_text, st, [], TRUSTED,
